@@ -105,6 +105,19 @@ def gen_c01(tier, seed):
         scens.append({"id": sid("C01", "r", i), "props": ["C01"], "mode": "clean", "tags": ["random"],
                       "steps": [{"op": "tree", "tree": t}, bk(o), {"op": "restore", "band": 0},
                                 {"op": "list", "band": 0}, {"op": "restore", "band": -1}]})
+    # deep nesting (the quantifier lists nesting depth)
+    for i in range(6 if tier == "quick" else 60):
+        t = [node("/", "Dir")]
+        path = ""
+        for d in range(rng.randrange(5, 9)):
+            path += "/" + rng.choice(["d", "é", "a.b", " ", "-x", "zz"])
+            t.append(node(path, "Dir", mode=rng.choice([0o755, 0o700, 0o1777, 0o2750])))
+            if rng.random() < 0.7:
+                t.append(node(path + "/f", "File", cvlib.rand_content(rng, 9), mt=rng.choice(cvlib.MTIMES)))
+            if rng.random() < 0.3:
+                t.append(node(path + "/l", "Symlink", target="../f", mt=rng.choice(cvlib.MTIMES)))
+        scens.append({"id": sid("C01", "deep", i), "props": ["C01"], "mode": "clean", "tags": ["deep"],
+                      "steps": [{"op": "tree", "tree": t}, bk(rand_opts(rng)), {"op": "restore", "band": 0}, {"op": "list", "band": 0}]})
     for i, (kind, t, o) in enumerate(c01_value_trees(rng, tier)):
         scens.append({"id": sid("C01", kind, i), "props": ["C01"], "mode": "clean", "tags": [kind],
                       "steps": [{"op": "tree", "tree": t}, bk(o), {"op": "restore", "band": 0}]})
@@ -212,7 +225,7 @@ def gen_c14(tier, seed):
     scens = []
     for i in range(n):
         # unchanged tree backed up twice (and a third time after a gc), dedup across versions
-        t = random_tree(rng, nmax=rng.choice([4, 8, 12]), pre_epoch=False, maxlen=9)
+        t = random_tree(rng, nmax=rng.choice([4, 8, 12]), pre_epoch=i % 3 == 0, maxlen=9)
         o = rng.choice(OPTS_POOL)
         o2 = rng.choice([o, o, rng.choice(OPTS_POOL)])
         steps = [{"op": "tree", "tree": t}, bk(o), bk(o2)]
